@@ -1149,7 +1149,8 @@ class CSSMatch(_DocumentNav):
                         break
                     if name in ('input', 'button'):
                         v = self.get_attribute_by_name(child, 'type', '')
-                        if v and util.lower(v) == 'submit':
+                        # Attribute values are case sensitive in XML, as in the selector that guards this check
+                        if v and (util.lower(v) if not self.is_xml else v) == 'submit':
                             self.cached_default_forms.append((form, child))
                             if el is child:
                                 match = True
